@@ -80,6 +80,10 @@ class Device:
             self.state, self.status = 2, 0
             return 0
         if bRequest == 1:      # DNLOAD
+            if self.state == 10 and self.sc.get('lenient'):
+                # a bootloader that reports the failed operation once and then takes further requests (the property speaks of
+                # "the device reports an error status for any erase or write", not of what the device does afterwards)
+                self.state, self.status = 5, 0
             if self.state == 10:
                 # DFU 1.1 A.2.11: in dfuERROR every request but GETSTATUS/GETSTATE/CLRSTATUS is stalled
                 raise OSError('USBError: [Errno 32] Pipe error (request stalled in dfuERROR)')
